@@ -198,7 +198,8 @@ func (fs FileServer) serveFile(w http.ResponseWriter, r *http.Request) (int, err
 		}
 
 		encodedFileInfo, err := encodedFile.Stat()
-		if err != nil {
+		if err != nil || fs.IsHidden(encodedFileInfo) {
+			// never serve a hidden file as the precompressed variant
 			encodedFile.Close()
 			continue
 		}
